@@ -1,4 +1,5 @@
 (* Open iterators: readings of the checker, the F10 witness on the model. *)
+From Coq Require Import Arith Lia.
 From RV Require Import Store.Model Store.IndexProofs Store.SimpleProofs Store.MemProofs Store.GraphProofs Store.Iter.
 
 Lemma yields_ok_reading c p W ys :
@@ -16,17 +17,27 @@ Proof.
   simpl. rewrite tsunion_In, sp_content_In. tauto.
 Qed.
 
-(* finding F10 on the faithful model: g1 = {(1,3,1)}, g2 = {(1,3,2)}; an iterator over
-   g1 with pattern (1,?,?) is opened and stepped once; (1,3,2) is removed from g2
-   (its only graph); the iterator then yields (1,3,2), which never was in g1 *)
+(* the corpus witness of the former finding F10: g1 = {(1,3,1)}, g2 = {(1,3,2)}; an
+   iterator over g1 with pattern (1,?,?) is opened and stepped once; (1,3,2) is removed
+   from g2 (its only graph); before the repair the iterator then yielded (1,3,2) *)
 Definition f10_witness : icase :=
   {| ic_ops := [SAdd 1 (1, 3, 1); SAdd 2 (1, 3, 2); SOpen 1 (Some 1, None, None); SNext 0;
                 SRemove 2 (Some 1, Some 3, Some 2); SDrain 0]%N |}.
 
-Lemma iter_sound_refuted :
-  exists c, ikf c = 1%N /\ ispec_ok c (imodel_obs c) = false
-            /\ last (imodel_obs c) no_obs = (0, false, [(1, 3, 2)], 1)%N.
-Proof. exists f10_witness. vm_compute. auto. Qed.
+Lemma f10_witness_passes :
+  ispec_ok f10_witness (imodel_obs f10_witness) = true
+  /\ last (imodel_obs f10_witness) no_obs = (0, false, [], 1)%N.
+Proof. vm_compute. auto. Qed.
+
+(* historical behaviour: the unrepaired test reported a triple that is not in the
+   store as a member of the graph of the default contexts *)
+Lemma hist_has_ctx_refuted :
+  exists m t c, MemInv m /\ mem_leaf m t = false /\ hist_has_ctx_live m t c = Some true
+                /\ has_ctx_live m t c = Some false.
+Proof.
+  exists (mem_add mem_empty 1%N (1, 3, 1)%N), (1, 3, 2)%N, 1%N.
+  split; [apply mem_add_ok, MemInv_empty|]. vm_compute. auto.
+Qed.
 
 (* ---------- no step of any schedule raises *)
 (* before the first add ever (no default contexts yet) the store is blank *)
@@ -90,7 +101,8 @@ Proof.
   destruct chk; [|discriminate]. unfold has_ctx_live.
   destruct (pd_get triple_eqb t (m_tc m)) as [d|].
   - destruct (memb ckey_eqb (Some c) d); [discriminate|exact IH].
-  - destruct (m_def m) as [d|]; [|congruence]. destruct (memb ckey_eqb (Some c) d); [discriminate|exact IH].
+  - destruct (mem_leaf m t); [|exact IH].
+    destruct (m_def m) as [d|]; [|congruence]. destruct (memb ckey_eqb (Some c) d); [discriminate|exact IH].
 Qed.
 
 Lemma walk_no_raise m c k chk outer : m_def m <> None -> it_walk m c k chk outer <> WRaise.
@@ -179,3 +191,460 @@ Qed.
 
 Corollary iter_no_raise_model c : Forall (fun e => ob_st e <> 2%N) (imodel_obs c).
 Proof. apply iter_no_raise; [apply Blank_empty|constructor]. Qed.
+
+(* ================================================================== *)
+(* Soundness of open iterators, for every schedule                     *)
+
+Definition HoldsRel (m : mem) (S : qset) : Prop := forall c t, mem_holds m c t = q_mem (t, c) S.
+
+(* the loop structure an iterator is in agrees with its pattern *)
+Definition kind_ok (p : pat) (chk : bool) (k : ikind) : Prop :=
+  match p with
+  | (None, None, None) => chk = false /\ k = KFlat
+  | (Some s, None, Some o) => chk = true /\ k = KSo s o
+  | (Some s, None, None) => chk = true /\ k = KSpo s
+  | (None, Some pr, None) => chk = true /\ k = KPos pr
+  | (None, None, Some o) => chk = true /\ k = KOsp o
+  | _ => chk = true /\ k = KFlat
+  end.
+
+(* every candidate still to be examined matches the pattern (tested shapes) *)
+Definition ItOK (it : iter) : Prop :=
+  it_started it = true -> it_done it = false ->
+  kind_ok (it_pat it) (it_check it) (it_kind it)
+  /\ (it_check it = true -> Forall (fun t => matches (it_pat it) t = true) (it_inner it)).
+
+(* ... or was in the graph when the copy was taken (the untested shape) *)
+Definition ItWin (it : iter) (W : list triple) : Prop :=
+  it_started it = true -> it_done it = false -> it_check it = false ->
+  Forall (fun t => In t W) (it_inner it).
+
+Definition ItRel (it : iter) (x : sit) : Prop :=
+  let '(c, p, W) := x in it_cid it = c /\ it_pat it = p /\ ItOK it /\ ItWin it W.
+
+(* the window contains the present content of the graph *)
+Definition WOK (S : qset) (x : sit) : Prop :=
+  let '(c, p, W) := x in forall t, In (t, c) S -> In t W.
+
+Lemma live_holds m t c : MemInv m -> has_ctx_live m t c = Some true -> mem_holds m c t = true.
+Proof.
+  intros Hi. unfold has_ctx_live. destruct (pd_get triple_eqb t (m_tc m)) as [d|] eqn:E.
+  - intros [= H]. apply holds_iff. split; [exact (mi_tc_leaf Hi t d E)|].
+    unfold mem_ctxs. rewrite E. now apply kmemb_In.
+  - destruct (mem_leaf m t) eqn:El; [|discriminate]. rewrite mem_leaf_eq in El.
+    destruct (m_def m) as [d|] eqn:Ed; [|discriminate]. intros [= H].
+    apply holds_iff. split; auto. unfold mem_ctxs. rewrite E, Ed. now apply kmemb_In.
+Qed.
+
+Lemma live_total m t c : MemInv m -> has_ctx_live m t c <> None.
+Proof.
+  intros Hi. unfold has_ctx_live. destruct (pd_get triple_eqb t (m_tc m)); [discriminate|].
+  destruct (mem_leaf m t) eqn:El; [|discriminate]. rewrite mem_leaf_eq in El.
+  pose proof (mi_def Hi t El). destruct (m_def m); [discriminate|congruence].
+Qed.
+
+Lemma scan_spec m c chk l t rest :
+  it_scan m c chk l = SYield t rest ->
+  In t l /\ (chk = true -> has_ctx_live m t c = Some true) /\ incl rest l.
+Proof.
+  induction l as [|u r IH]; simpl; [discriminate|].
+  destruct chk.
+  - destruct (has_ctx_live m u c) as [[|]|] eqn:E; [| |discriminate].
+    + intros [= <- <-]. split; [auto|split; [auto|apply incl_tl, incl_refl]].
+    + intros H. destruct (IH H) as (H1 & H2 & H3). split; [auto|split; [auto|now apply incl_tl]].
+  - intros [= <- <-]. split; [auto|split; [discriminate|apply incl_tl, incl_refl]].
+Qed.
+
+Lemma scan_total m c chk l : MemInv m -> it_scan m c chk l <> SRaise.
+Proof.
+  intros Hi. induction l as [|u r IH]; simpl; [discriminate|].
+  destruct chk; [|discriminate]. pose proof (live_total m u c Hi).
+  destruct (has_ctx_live m u c) as [[|]|]; [discriminate|exact IH|congruence].
+Qed.
+
+Lemma walk_spec m c k chk outer t r inner :
+  it_walk m c k chk outer = WYield t r inner ->
+  exists x, In t (it_expand m k x) /\ (chk = true -> has_ctx_live m t c = Some true)
+            /\ incl inner (it_expand m k x).
+Proof.
+  induction outer as [|x o IH]; simpl; [discriminate|].
+  destruct (it_scan m c chk (it_expand m k x)) as [t' rest| |] eqn:E; [| |discriminate].
+  - intros [= <- <- <-]. exists x. now apply scan_spec in E.
+  - exact IH.
+Qed.
+
+Lemma walk_total m c k chk outer : MemInv m -> it_walk m c k chk outer <> WRaise.
+Proof.
+  intros Hi. induction outer as [|x o IH]; simpl; [discriminate|].
+  pose proof (scan_total m c chk (it_expand m k x) Hi).
+  destruct (it_scan m c chk (it_expand m k x)); [discriminate|exact IH|congruence].
+Qed.
+
+Lemma expand_matches m p k x t :
+  kind_ok p true k -> In t (it_expand m k x) -> matches p t = true.
+Proof.
+  destruct p as [[[s|] [pr|]] [o|]]; simpl; intros [_ ->]; simpl;
+    try tauto; try (destruct (idx_has _ _ _ _); simpl; [|tauto]);
+    try (rewrite in_map_iff; intros (y & <- & _)); try (intros [<-|[]]);
+    simpl; rewrite ?N.eqb_refl; reflexivity.
+Qed.
+
+Lemma expand_unchecked m p k x : kind_ok p false k -> it_expand m k x = [].
+Proof. destruct p as [[[s|] [pr|]] [o|]]; simpl; intros [H ->]; try discriminate. reflexivity. Qed.
+
+Lemma start_ok m S it c p W :
+  MemInv m -> HoldsRel m S -> WOK S (c, p, W) -> it_cid it = c -> it_pat it = p ->
+  ItRel (it_start m it) (c, p, W) /\ it_started (it_start m it) = true /\ it_done (it_start m it) = false.
+Proof.
+  intros Hi HR HW Hc Hp. unfold it_start. rewrite Hp, Hc.
+  assert (Hwild : Forall (fun t => In t W) (pd_getd ckey_eqb (Some c) (m_ct m))).
+  { apply Forall_forall. intros t Ht. apply (mi_ct Hi) in Ht. apply HW. apply q_mem_In. rewrite <- HR.
+    now apply holds_iff. }
+  unfold ItRel, ItOK, ItWin.
+  destruct p as [[[s|] [pr|]] [o|]]; cbn [it_cid it_pat it_started it_done it_check it_kind it_inner];
+    (split; [split; [reflexivity|split; [reflexivity|split]]|split; reflexivity]);
+    try (intros _ _ H; discriminate H); try (intros _ _ _; exact Hwild);
+    intros _ _; (split; [simpl; auto|]); try discriminate; intros _.
+  - destruct (idx_has s pr o (m_spo m)); constructor; [|constructor]. simpl. now rewrite !N.eqb_refl.
+  - apply Forall_forall. intros t Ht. apply in_map_iff in Ht. destruct Ht as (y & <- & _). simpl. now rewrite !N.eqb_refl.
+  - constructor.
+  - constructor.
+  - apply Forall_forall. intros t Ht. apply in_map_iff in Ht. destruct Ht as (y & <- & _). simpl. now rewrite !N.eqb_refl.
+  - constructor.
+  - constructor.
+Qed.
+
+Lemma Forall_incl {A} (P : A -> Prop) l1 l2 : incl l1 l2 -> Forall P l2 -> Forall P l1.
+Proof. intros Hi H. rewrite Forall_forall in *. auto. Qed.
+
+(* One step.  A yielded triple matches the pattern and lies in the window; if the
+   pattern is not (?,?,?) it is in the iterated graph in the CURRENT state. *)
+Lemma next_sound m S it c p W :
+  MemInv m -> HoldsRel m S -> ItRel it (c, p, W) -> WOK S (c, p, W) ->
+  ItRel (snd (it_next m it)) (c, p, W) /\ fst (it_next m it) <> NRaise
+  /\ forall t, fst (it_next m it) = NYield t ->
+       matches p t = true /\ In t W /\ (is_wild p = false -> mem_holds m c t = true).
+Proof.
+  intros Hi HR HRel HW. unfold it_next.
+  destruct (it_done it) eqn:Edone; [split; [exact HRel|split; [discriminate|intros t H; discriminate H]]|].
+  set (it1 := if it_started it then it else it_start m it).
+  assert (H1 : ItRel it1 (c, p, W) /\ it_started it1 = true /\ it_done it1 = false).
+  { unfold it1. destruct (it_started it) eqn:Es; [auto|].
+    destruct HRel as (Hc & Hp & _). now apply (start_ok m S). }
+  destruct H1 as ((Hc & Hp & Hok & Hwin) & Hs1 & Hd1).
+  destruct (Hok Hs1 Hd1) as [Hk Hm]. specialize (Hwin Hs1 Hd1).
+  assert (Hholds : forall t, has_ctx_live m t c = Some true -> In t W /\ mem_holds m c t = true).
+  { intros t Ht. pose proof (live_holds m t c Hi Ht) as Hh. split; auto. apply HW, q_mem_In. now rewrite <- HR. }
+  assert (Hwildchk : is_wild p = false -> it_check it1 = true).
+  { intros Hw. rewrite Hp in Hk. destruct p as [[[s|] [pr|]] [o|]]; simpl in *; try tauto; discriminate. }
+  assert (Hset : forall d o i, ItOK (it_set it1 d o i) <->
+            (d = false -> it_check it1 = true -> Forall (fun t => matches (it_pat it1) t = true) i)).
+  { intros d o i. unfold ItOK, it_set. cbn [it_started it_done it_pat it_check it_kind it_inner]. split.
+    - intros H Hd Hc'. now apply H.
+    - intros H _ Hd. split; auto. }
+  rewrite Hc in *. 
+  pose proof (scan_total m c (it_check it1) (it_inner it1) Hi) as Hst.
+  pose proof (walk_total m c (it_kind it1) (it_check it1) (it_outer it1) Hi) as Hwt.
+  destruct (it_scan m c (it_check it1) (it_inner it1)) as [t rest| |] eqn:Escan; [| |congruence]; cbn [fst snd].
+  - apply scan_spec in Escan. destruct Escan as (Hin & Hlive & Hincl).
+    split; [|split; [discriminate|]].
+    + unfold ItRel. split; [exact Hc|split; [exact Hp|split]].
+      * apply Hset. intros _ Hchk. eapply Forall_incl; [exact Hincl|auto].
+      * unfold ItWin, it_set. cbn [it_started it_done it_check it_inner]. intros _ _ Hchk.
+        eapply Forall_incl; [exact Hincl|auto].
+    + intros t' [= <-]. destruct (it_check it1) eqn:Echk.
+      * destruct (Hholds t (Hlive eq_refl)) as [Hw Hh]. rewrite <- Hp.
+        split; [|split; auto]. specialize (Hm eq_refl). rewrite Forall_forall in Hm. auto.
+      * specialize (Hwin eq_refl). rewrite Forall_forall in Hwin. split; [|split; auto].
+        -- rewrite Hp in Hk. destruct p as [[[s|] [pr|]] [o|]]; simpl in Hk; destruct Hk as [Hk _]; try discriminate.
+           destruct t as [[x y] z]. reflexivity.
+        -- intros Hw. specialize (Hwildchk Hw). discriminate.
+  - destruct (it_walk m c (it_kind it1) (it_check it1) (it_outer it1)) as [t outer inner| |] eqn:Ewalk; [| |congruence]; cbn [fst snd].
+    + apply walk_spec in Ewalk. destruct Ewalk as (x & Hin & Hlive & Hincl).
+      destruct (it_check it1) eqn:Echk.
+      * assert (Hmx : forall u, In u (it_expand m (it_kind it1) x) -> matches (it_pat it1) u = true).
+        { intros u Hu. eapply expand_matches; eauto. }
+        split; [|split; [discriminate|]].
+        -- unfold ItRel. split; [exact Hc|split; [exact Hp|split]].
+           ++ apply Hset. intros _ _. apply Forall_forall. intros u Hu. apply Hmx, Hincl, Hu.
+           ++ unfold ItWin, it_set. cbn [it_started it_done it_check it_inner]. rewrite Echk. discriminate.
+        -- intros t' [= <-]. destruct (Hholds t (Hlive eq_refl)) as [Hw Hh]. rewrite <- Hp. auto.
+      * exfalso. rewrite (expand_unchecked m _ _ x Hk) in Hin. destruct Hin.
+    + split; [|split; [discriminate|intros t H; discriminate H]].
+      unfold ItRel. split; [exact Hc|split; [exact Hp|split]].
+      * apply Hset. discriminate.
+      * unfold ItWin, it_set. cbn [it_started it_done]. discriminate.
+Qed.
+
+(* ---------- mutations keep the relations *)
+Lemma HoldsRel_empty : HoldsRel mem_empty [].
+Proof. intros c t. now rewrite holds_empty. Qed.
+
+Lemma HoldsRel_add m S c t0 : MemInv m -> HoldsRel m S -> HoldsRel (mem_add m c t0) (q_add (t0, c) S).
+Proof.
+  intros Hi HR c' t. rewrite (proj2 (mem_add_ok m c t0 Hi)), q_mem_add, quad_eqb_pair, HR.
+  now rewrite (andb_comm (N.eqb c' c)).
+Qed.
+
+Lemma HoldsRel_remove m S c p : MemInv m -> HoldsRel m S -> HoldsRel (mem_remove m c p) (q_remove p (Some c) S).
+Proof.
+  intros Hi HR c' t. rewrite (proj2 (mem_remove_ok m c p Hi)), q_mem_remove, HR. cbn [fst snd].
+  now rewrite (N.eqb_sym c c'), (andb_comm (matches p t)).
+Qed.
+
+Lemma mut_ok m S o :
+  MemInv m -> HoldsRel m S -> is_mut o = true ->
+  MemInv (fst (fst (i_step m [] o))) /\ HoldsRel (fst (fst (i_step m [] o))) (sp_mut S o).
+Proof.
+  intros Hi HR Hm. destruct o as [c t|c p|c t| | |]; try discriminate; cbn [i_step fst sp_mut].
+  - split; [apply mem_add_ok, Hi|now apply HoldsRel_add].
+  - split; [apply mem_remove_ok, Hi|now apply HoldsRel_remove].
+  - unfold mem_set. pose proof (proj1 (mem_remove_ok m c (sp_pat t) Hi)) as Hi1. split; [apply mem_add_ok, Hi1|].
+    apply HoldsRel_add; auto. now apply HoldsRel_remove.
+Qed.
+
+Lemma ItRel_widen S it x : ItRel it x -> ItRel it (widen S x).
+Proof.
+  destruct x as [[c p] W]. intros (H1 & H2 & H3 & H4). split; [auto|split; [auto|split; auto]].
+  intros Hs Hd Hc. eapply Forall_impl; [|exact (H4 Hs Hd Hc)]. intros t Ht. cbv beta. apply tsunion_In. auto.
+Qed.
+
+Lemma WOK_widen S x : WOK S (widen S x).
+Proof. destruct x as [[c p] W]. intros t Ht. apply tsunion_In. right. now apply sp_content_In. Qed.
+
+(* ---------- lists of iterators *)
+Lemma Forall2_nth {A B} (R : A -> B -> Prop) l m i :
+  Forall2 R l m ->
+  match nth_error l i with
+  | Some a => exists b, nth_error m i = Some b /\ R a b
+  | None => nth_error m i = None
+  end.
+Proof.
+  intros H. revert i. induction H as [|a b l m Hab H IH]; intros [|i]; simpl; auto.
+  - exists b. auto.
+  - apply IH.
+Qed.
+
+Lemma Forall2_set_nth {A B} (R : A -> B -> Prop) l m i y b :
+  Forall2 R l m -> nth_error m i = Some b -> R y b -> Forall2 R (set_nth i y l) m.
+Proof.
+  intros H. revert i. induction H as [|a b' l m Hab H IH]; intros [|i] Hn Hy; simpl in *; try discriminate.
+  - injection Hn as ->. constructor; auto.
+  - constructor; auto.
+Qed.
+
+Lemma Forall2_map_r {A B} (R : A -> B -> Prop) (f : B -> B) l m :
+  (forall a b, R a b -> R a (f b)) -> Forall2 R l m -> Forall2 R l (map f m).
+Proof. intros Hf H. induction H; simpl; constructor; auto. Qed.
+
+(* list(it) *)
+Lemma drain_sound fuel : forall m S it c p W acc,
+  MemInv m -> HoldsRel m S -> ItRel it (c, p, W) -> WOK S (c, p, W) ->
+  (forall t, In t acc -> matches p t = true /\ In t W) ->
+  let r := it_drain fuel m it acc in
+  ItRel (snd r) (c, p, W) /\ snd (fst r) <> 2%N
+  /\ forall t, In t (fst (fst r)) -> matches p t = true /\ In t W.
+Proof.
+  induction fuel as [|f IH]; intros m S it c p W acc Hi HR HRel HW Hacc; cbn [it_drain].
+  - cbn. split; [auto|split; [discriminate|auto]].
+  - destruct (next_sound m S it c p W Hi HR HRel HW) as (N1 & N2 & N3).
+    destruct (it_next m it) as [[t| |] it']; cbn [fst snd] in *.
+    + apply (IH m S); auto. intros u Hu. apply in_app_iff in Hu. destruct Hu as [Hu|[<-|[]]]; auto.
+      destruct (N3 t eq_refl) as (A & B & _). auto.
+    + split; [auto|split; [discriminate|auto]].
+    + congruence.
+Qed.
+
+(* Every schedule of mutations, opens, next() and list() on the default store:
+   the iterator checker accepts what the model does. *)
+Theorem iter_sound_run : forall ops m its S xs,
+  MemInv m -> HoldsRel m S -> Forall2 ItRel its xs -> Forall (WOK S) xs ->
+  ispec_run S xs ops (i_run m its ops) = true.
+Proof.
+  induction ops as [|o r IH]; intros m its S xs Hi HR HF HW; [reflexivity|].
+  cbn [i_run].
+  assert (Hmut : is_mut o = true ->
+            let m' := fst (fst (i_step m [] o)) in
+            ispec_run (sp_mut S o) (map (widen (sp_mut S o)) xs) r (i_run m' its r) = true).
+  { intros Hm m'. destruct (mut_ok m S o Hi HR Hm) as [Hi' HR']. apply IH; auto.
+    - apply Forall2_map_r; auto. intros a b. apply ItRel_widen.
+    - apply Forall_forall. intros x Hx. apply in_map_iff in Hx. destruct Hx as (y & <- & _). apply WOK_widen. }
+  destruct o as [c t|c p|c t|c p|i|i]; cbn [i_step ispec_run].
+  - exact (Hmut eq_refl).
+  - exact (Hmut eq_refl).
+  - exact (Hmut eq_refl).
+  - cbn. apply IH; auto.
+    + apply Forall2_app; auto. constructor; [|constructor].
+      split; [reflexivity|split; [reflexivity|split]]; intros H; discriminate H.
+    + apply Forall_app. split; auto. constructor; [|constructor]. intros t Ht. now apply sp_content_In.
+  - pose proof (Forall2_nth ItRel its xs i HF) as Hn.
+    destruct (nth_error its i) as [it|] eqn:E.
+    + destruct Hn as ([[c p] W] & Hx & HRel). rewrite Hx.
+      assert (HWx : WOK S (c, p, W)) by (rewrite Forall_forall in HW; apply HW; eapply nth_error_In; eauto).
+      destruct (next_sound m S it c p W Hi HR HRel HWx) as (N1 & N2 & N3).
+      destruct (it_next m it) as [[t| |] it']; cbn [fst snd] in *; try congruence.
+      * cbn [ispec_run ob_st ob_ys fst snd]. rewrite IH; auto; [|eapply Forall2_set_nth; eauto].
+        destruct (N3 t eq_refl) as (A & B & _). cbn. rewrite A. apply tmemb_In in B. unfold teq. now rewrite B.
+      * cbn. apply IH; auto. eapply Forall2_set_nth; eauto.
+    + rewrite Hn. apply IH; auto.
+  - pose proof (Forall2_nth ItRel its xs i HF) as Hn.
+    destruct (nth_error its i) as [it|] eqn:E.
+    + destruct Hn as ([[c p] W] & Hx & HRel). rewrite Hx.
+      assert (HWx : WOK S (c, p, W)) by (rewrite Forall_forall in HW; apply HW; eapply nth_error_In; eauto).
+      destruct (drain_sound (drain_fuel m (if it_started it then it else it_start m it)) m S it c p W []
+                            Hi HR HRel HWx) as (D1 & D2 & D3); [intros t []|].
+      destruct (it_drain _ m it []) as [[ys st] it']. cbn [fst snd] in *.
+      cbn [ispec_run ob_st ob_ys fst snd]. rewrite IH; auto; [|eapply Forall2_set_nth; eauto].
+      rewrite andb_true_r. apply andb_true_iff. split.
+      * apply negb_true_iff. now apply N.eqb_neq.
+      * apply yields_ok_reading. exact D3.
+    + rewrite Hn. apply IH; auto.
+Qed.
+
+Theorem ispec_ok_model c : ispec_ok c (imodel_obs c) = true.
+Proof.
+  unfold ispec_ok, imodel_obs. apply iter_sound_run; [apply MemInv_empty|apply HoldsRel_empty|constructor|constructor].
+Qed.
+
+(* ================================================================== *)
+(* The same statement without the boolean checker                       *)
+
+(* the mathematical store after a schedule prefix (opens and steps change nothing) *)
+Definition s_state (S : qset) (ops : list sop) : qset := fold_left sp_mut ops S.
+
+Fixpoint count_opens (ops : list sop) : nat :=
+  match ops with
+  | [] => 0
+  | SOpen _ _ :: r => Datatypes.S (count_opens r)
+  | _ :: r => count_opens r
+  end.
+
+(* specification state and iterator windows after a schedule prefix *)
+Fixpoint sx_run (S : qset) (xs : list sit) (ops : list sop) : qset * list sit :=
+  match ops with
+  | [] => (S, xs)
+  | o :: r =>
+      match o with
+      | SOpen c p => sx_run S (xs ++ [(c, p, sp_content S c)]) r
+      | SNext _ | SDrain _ => sx_run S xs r
+      | _ => sx_run (sp_mut S o) (map (widen (sp_mut S o)) xs) r
+      end
+  end.
+
+Lemma sx_run_app a : forall S xs b,
+  sx_run S xs (a ++ b) = sx_run (fst (sx_run S xs a)) (snd (sx_run S xs a)) b.
+Proof. induction a as [|o r IH]; intros S xs b; [reflexivity|]. destruct o; cbn [app sx_run]; apply IH. Qed.
+
+Lemma sx_run_state ops : forall S xs, fst (sx_run S xs ops) = s_state S ops.
+Proof. induction ops as [|o r IH]; intros S xs; [reflexivity|]. destruct o; cbn [sx_run s_state fold_left]; apply IH. Qed.
+
+Lemma sx_run_length ops : forall S xs, length (snd (sx_run S xs ops)) = length xs + count_opens ops.
+Proof.
+  induction ops as [|o r IH]; intros S xs; cbn [sx_run count_opens snd]; [lia|].
+  destruct o; rewrite IH; rewrite ?map_length, ?app_length; simpl; lia.
+Qed.
+
+Lemma ispec_run_app a : forall S xs b ob,
+  ispec_run S xs (a ++ b) ob = true ->
+  ispec_run (fst (sx_run S xs a)) (snd (sx_run S xs a)) b (skipn (length a) ob) = true.
+Proof.
+  induction a as [|o r IH]; intros S xs b ob H; [exact H|].
+  destruct ob as [|e ob]; [destruct o; discriminate H|].
+  cbn [app ispec_run] in H. cbn [length skipn sx_run].
+  destruct o as [c t|c p|c t|c p|i|i].
+  - apply andb_true_iff in H. apply IH, H.
+  - apply andb_true_iff in H. apply IH, H.
+  - apply andb_true_iff in H. apply IH, H.
+  - apply andb_true_iff in H. apply IH, H.
+  - destruct (nth_error xs i); [apply andb_true_iff in H|]; apply IH, H.
+  - destruct (nth_error xs i); [apply andb_true_iff in H|]; apply IH, H.
+Qed.
+
+Lemma i_run_length ops : forall m its, length (i_run m its ops) = length ops.
+Proof.
+  induction ops as [|o r IH]; intros m its; [reflexivity|]. cbn [i_run].
+  destruct (i_step m its o) as [[m' its'] e]. simpl. now rewrite IH.
+Qed.
+
+Lemma skipn_last {A} (l : list A) n d : length l = Datatypes.S n -> skipn n l = [last l d].
+Proof.
+  revert l. induction n as [|n IH]; intros [|a [|b r]] H; try discriminate; try reflexivity.
+  change (skipn (Datatypes.S n) (a :: b :: r)) with (skipn n (b :: r)). rewrite IH by (simpl in *; lia). reflexivity.
+Qed.
+
+(* the window of an iterator after more of the schedule: what it had, plus the
+   content of its graph after every mutation since *)
+Lemma window_grows mid : forall S xs i c p W0,
+  nth_error xs i = Some (c, p, W0) ->
+  exists W, nth_error (snd (sx_run S xs mid)) i = Some (c, p, W)
+            /\ forall t, In t W -> In t W0 \/ exists mid1 mid2, mid = mid1 ++ mid2 /\ In (t, c) (s_state S mid1).
+Proof.
+  induction mid as [|o r IH]; intros S xs i c p W0 Hn.
+  - exists W0. split; auto.
+  - assert (Hmut : is_mut o = true ->
+              exists W, nth_error (snd (sx_run (sp_mut S o) (map (widen (sp_mut S o)) xs) r)) i = Some (c, p, W)
+                /\ forall t, In t W -> In t W0 \/ exists mid1 mid2, o :: r = mid1 ++ mid2 /\ In (t, c) (s_state S mid1)).
+    { intros _. destruct (IH (sp_mut S o) (map (widen (sp_mut S o)) xs) i c p (sunion teq W0 (sp_content (sp_mut S o) c)))
+        as (W & H1 & H2).
+      { exact (map_nth_error (widen (sp_mut S o)) i xs Hn). }
+      exists W. split; auto. intros t Ht. destruct (H2 t Ht) as [H|(m1 & m2 & -> & H)].
+      - apply tsunion_In in H. destruct H as [H|H]; auto. right. exists [o], r. split; auto.
+        now apply sp_content_In.
+      - right. exists (o :: m1), m2. split; auto. }
+    assert (Hsame : forall xs', nth_error xs' i = Some (c, p, W0) -> sp_mut S o = S ->
+              exists W, nth_error (snd (sx_run S xs' r)) i = Some (c, p, W)
+                /\ forall t, In t W -> In t W0 \/ exists mid1 mid2, o :: r = mid1 ++ mid2 /\ In (t, c) (s_state S mid1)).
+    { intros xs' Hn' Hid. destruct (IH S xs' i c p W0 Hn') as (W & H1 & H2). exists W. split; auto.
+      intros t Ht. destruct (H2 t Ht) as [H|(m1 & m2 & -> & H)]; auto.
+      right. exists (o :: m1), m2. split; auto. unfold s_state. cbn [fold_left]. now rewrite Hid. }
+    destruct o as [c' t'|c' p'|c' t'|c' p'|j|j]; cbn [sx_run].
+    + exact (Hmut eq_refl).
+    + exact (Hmut eq_refl).
+    + exact (Hmut eq_refl).
+    + apply Hsame; auto. rewrite nth_error_app1; auto. apply nth_error_Some. intros E. pose proof (eq_trans (eq_sym E) Hn) as X. discriminate X.
+    + apply Hsame; auto.
+    + apply Hsame; auto.
+Qed.
+
+(* For every schedule: consider any iterator (opened by [SOpen c p] after the prefix
+   [pre]) and any later step [o] of it (next or list).  That step does not raise, and
+   every triple it yields matches the pattern and was in graph [c] in the state after
+   [pre ++ mid1] for some prefix [mid1] of the operations between the open and the
+   step (mid1 = [] is the state at the open, mid1 = mid the state at the step). *)
+Theorem iter_sound_explicit : forall pre c p mid o i,
+  (o = SNext i \/ o = SDrain i) -> i = count_opens pre ->
+  let e := last (imodel_obs {| ic_ops := pre ++ SOpen c p :: mid ++ [o] |}) no_obs in
+  ob_st e <> 2%N
+  /\ forall t, In t (ob_ys e) ->
+       matches p t = true
+       /\ exists mid1 mid2, mid = mid1 ++ mid2 /\ In (t, c) (s_state [] (pre ++ SOpen c p :: mid1)).
+Proof.
+  intros pre c p mid o i Ho Hi e.
+  set (a := pre ++ SOpen c p :: mid).
+  pose proof (ispec_ok_model {| ic_ops := a ++ [o] |}) as H.
+  assert (Eops : pre ++ SOpen c p :: mid ++ [o] = a ++ [o]) by (unfold a; now rewrite <- app_assoc).
+  unfold e. rewrite Eops. clear e.
+  unfold ispec_ok in H. cbn [ic_ops] in H. apply ispec_run_app in H.
+  set (ob := imodel_obs {| ic_ops := a ++ [o] |}) in *.
+  assert (Hlen : length ob = Datatypes.S (length a)).
+  { unfold ob, imodel_obs. cbn [ic_ops]. rewrite i_run_length, app_length. simpl. lia. }
+  rewrite (skipn_last ob (length a) no_obs Hlen) in H.
+  set (e := last ob no_obs) in *.
+  (* the windows when the step is taken *)
+  unfold a in H. rewrite sx_run_app in H. cbn [sx_run] in H.
+  set (S1 := fst (sx_run [] [] pre)) in *. set (xs1 := snd (sx_run [] [] pre)) in *.
+  assert (Hi1 : length xs1 = i) by (unfold xs1; rewrite sx_run_length; simpl; lia).
+  destruct (window_grows mid S1 (xs1 ++ [(c, p, sp_content S1 c)]) i c p (sp_content S1 c)) as (W & HW1 & HW2).
+  { rewrite nth_error_app2 by lia. rewrite Hi1, Nat.sub_diag. reflexivity. }
+  assert (HS1 : S1 = s_state [] pre) by (unfold S1; apply sx_run_state).
+  assert (Hst : forall m1, s_state [] (pre ++ SOpen c p :: m1) = s_state S1 m1).
+  { intros m1. unfold s_state. rewrite fold_left_app. cbn [fold_left sp_mut]. now rewrite HS1. }
+  assert (Hcore : negb (N.eqb (ob_st e) 2) && yields_ok (c, p, W) (ob_ys e) = true).
+  { destruct Ho as [-> | ->]; cbn [ispec_run] in H; rewrite HW1 in H; now rewrite andb_true_r in H. }
+  apply andb_true_iff in Hcore. destruct Hcore as [C1 C2]. split.
+  - apply negb_true_iff in C1. now apply N.eqb_neq.
+  - intros t Ht. destruct (proj1 (yields_ok_reading c p W (ob_ys e)) C2 t Ht) as [M Hw]. split; auto.
+    destruct (HW2 t Hw) as [H0|(m1 & m2 & E & H1)].
+    + exists [], mid. split; auto. rewrite Hst. now apply sp_content_In.
+    + exists m1, m2. split; auto. now rewrite Hst.
+Qed.
